@@ -177,6 +177,15 @@ func routes() []rt {
 	out = append(out, rt{"GET", "/query/configmetadata", "configmetadata", "json", []string{cfgHash, cfgID}})
 	out = append(out, rt{"GET", "/query/configmetadata?x=1", "configmetadata", "json", []string{cfgHash, cfgID}})
 	// not endpoints of Refinery (other method, unregistered path): whatever happens, nothing planted may come back
+	// every other method on every registered path (whatever answers them - the proxy today - nothing planted may come back)
+	for _, m := range []string{"HEAD", "POST", "PUT", "DELETE", "PATCH", "OPTIONS"} {
+		for _, p := range []string{"/query/trace/{peer}", "/query/rules/json/ds-rules", "/query/allrules/json", "/query/allrules/yaml", "/query/configmetadata"} {
+			if (m == "HEAD" || m == "POST") && p == "/query/trace/{peer}" || m == "POST" && p == "/query/allrules/json" {
+				continue // listed below
+			}
+			out = append(out, rt{m, p, "not-an-endpoint", "", nil})
+		}
+	}
 	out = append(out,
 		rt{"HEAD", "/query/trace/{peer}", "not-an-endpoint", "", nil},
 		rt{"POST", "/query/trace/{peer}", "not-an-endpoint", "", nil},
@@ -335,8 +344,10 @@ func main() {
 
 		if rtv.Kind == "not-an-endpoint" {
 			// not answered by a /query/ endpoint at all (mux falls through to the proxy): must still reveal nothing
-			if s := leaks(w); s != "" {
-				fail("leak:not-an-endpoint:"+rtv.Method+" "+rtv.Path, "planted string "+s+" returned for a path/method that is not a query endpoint")
+			// (with the exact token presented nothing is demanded: a version that serves this method too, behind the
+			// same check, would be within the statement)
+			if s := leaks(w); s != "" && verdict != "allow" {
+				fail("leak:not-an-endpoint:"+rtv.Method+" "+rtv.Path, "planted string "+s+" returned without the configured token for a path/method that is not a query endpoint today")
 			}
 			for _, o := range outgoing {
 				for k, vs := range o.Header {
